@@ -1,4 +1,7 @@
 import FimVerif.Proofs.Lemmas.C17Script
+import FimVerif.Proofs.Lemmas.C17Cfg
+import FimVerif.Proofs.Lemmas.C17Sym
+import FimVerif.Generated.DiffCfg
 /-!
 # C17 — sliver comparison reports exactly the differences between two slivers
 
@@ -11,10 +14,59 @@ sliver tree and every value type `V` for labels / capacities / user data.
 sides (otherwise the method raises: `node_diff_raises_iff`); `n.Ok` says every SmartNIC of `n` has a network service,
 which is enough for `n` against itself and against any edited copy.
 `rep r` is what a result reports (`None` reports nothing).
+
+Tie to the source: the driver does not run `ifaceDiff / svcDiff / nodeDiff` but the table-driven `ifaceDiffC / svcDiffC /
+nodeDiffC` on `Generated/DiffCfg.lean`, which `gen/diffcfg.py` extracts from the source on every run (section 0).  Section 0
+proves that the extracted table is `Good` and that for every good table the table-driven methods *are* the functions the
+theorems below are about; a source change that drops a compared property, a descent, a term of the final test or moves a
+collection to another field changes the table, the model the driver runs, and makes `table_good` fail.
 -/
 namespace FimVerif.C17
 open FimVerif.Diff
 variable {V : Type} [DecidableEq V]
+
+instance {ε α : Type} [DecidableEq ε] [DecidableEq α] : DecidableEq (Except ε α) := fun a b =>
+  match a, b with
+  | .ok x, .ok y => if h : x = y then isTrue (by rw [h]) else isFalse (fun e => h (by cases e; rfl))
+  | .error x, .error y => if h : x = y then isTrue (by rw [h]) else isFalse (fun e => h (by cases e; rfl))
+  | .ok _, .error _ => isFalse (fun e => by cases e)
+  | .error _, .ok _ => isFalse (fun e => by cases e)
+
+/-! ## 0. the extracted table -/
+
+/-- the table extracted from the source in this run describes the comparison the theorems are about -/
+theorem table_good : FimVerif.Gen.DiffCfg.cfg.Good := by decide
+
+/-- the integer value of a `WhatsModifiedFlag` built by the methods tells exactly which of labels / capacities / user data /
+sub-interfaces were flagged (the member values extracted from `topology_diff.py` are independent bits) -/
+theorem flag_values_decodable (f g : Flags)
+    (h : encodeC FimVerif.Gen.DiffCfg.cfg.flagVal f = encodeC FimVerif.Gen.DiffCfg.cfg.flagVal g) : f = g :=
+  encodeC_injective (by decide) f g h
+
+/-- for every good table the table-driven methods are the hand-mirrored ones -/
+theorem table_model_eq (cfg : Cfg) (h : cfg.Good) :
+    (∀ a b : Props V, propDiffC cfg.props a b = propDiff a b) ∧ (∀ a b : Iface V, ifaceDiffC cfg a b = ifaceDiff a b) ∧
+    (∀ a b : Svc V, svcDiffC cfg a b = svcDiff a b) ∧ (∀ a b : Node V, nodeDiffC cfg a b = nodeDiff a b) :=
+  ⟨propDiffC_eq _ h.1, ifaceDiffC_eq h, svcDiffC_eq h, nodeDiffC_eq h⟩
+
+/-- what the driver runs, on the table of this run -/
+theorem generated_model_eq :
+    (∀ a b : Iface V, ifaceDiffC FimVerif.Gen.DiffCfg.cfg a b = ifaceDiff a b) ∧
+    (∀ a b : Svc V, svcDiffC FimVerif.Gen.DiffCfg.cfg a b = svcDiff a b) ∧
+    (∀ a b : Node V, nodeDiffC FimVerif.Gen.DiffCfg.cfg a b = nodeDiff a b) :=
+  ⟨ifaceDiffC_eq table_good, svcDiffC_eq table_good, nodeDiffC_eq table_good⟩
+
+private abbrev gcfg : Cfg := FimVerif.Gen.DiffCfg.cfg
+
+-- dropping a compared property, a descent or a term of the final test is not a good table
+example : ¬ Cfg.Good { gcfg with props := [(.labels, .labels), (.caps, .caps)] } := by decide
+example : ¬ Cfg.Good { gcfg with node := { gcfg.node with cond := gcfg.node.cond.filter (fun p => p ≠ .added .svcs) } } := by decide
+example : ¬ Cfg.Good { gcfg with svc := { gcfg.svc with levels := gcfg.svc.levels.map (fun l => { l with descend := none }) } } := by
+  decide
+-- the order in which `prop_diff` compares and the order of the terms of the final test do not matter
+example : Cfg.Good { gcfg with props := gcfg.props.reverse, node := { gcfg.node with cond := gcfg.node.cond.reverse } } := by decide
+-- member values that overlap (LABELS = 1, CAPACITIES = 2, USER_DATA = 3) cannot be decoded
+example : ¬ EncInj [(.labels, 1), (.caps, 2), (.ud, 3), (.sub, 4)] := by decide
 
 /-! ## 1. a sliver compared with an identical copy of itself reports no difference -/
 
@@ -225,5 +277,164 @@ example : (nodeDiff exNode (applyNode exScript exNode)).toOption =
                  modNodes := [("n1", { caps := true })], modComps := [("nic1", { sub := true })] }) := by decide
 -- the blind spot recorded as a known finding: a script below a node-level service is predicted (and reported) as nothing
 example : expNode { svcs := [.modify "ns1" { ifs := [.remove "p2"] }] } exNode = none := by decide
+
+/-! ## 6. the "modified" part is the same in both directions
+
+`added` old→new is `removed` new→old (section 2); what is listed as modified, and with which flag, does not depend on the
+direction - provided both sides agree on which interfaces are dedicated ports and which components are SmartNICs (the
+methods test the type of the *old* side only; `*_counterexample` shows the hypothesis is needed). -/
+
+theorem prop_diff_symm (a b : Props V) : propDiff a b = propDiff b a := propDiff_comm a b
+
+theorem iface_modified_symm (a b : Iface V) (ha : a.Wf) (hb : b.Wf) :
+    (∀ k f, (k, f) ∈ (rep (ifaceDiff a b)).modIfs ↔ (k, f) ∈ (rep (ifaceDiff b a)).modIfs) ∧
+    (rep (ifaceDiff a b)).modSvcs.map Prod.snd = (rep (ifaceDiff b a)).modSvcs.map Prod.snd := by
+  simp only [rep_ifaceDiff]
+  refine ⟨fun k f => mem_level_modified_comm leafFlag _ _ ha hb (fun _ x y _ _ => leafFlag_comm x y) k f, ?_⟩
+  unfold selfMod
+  rw [propDiff_comm b.props a.props]
+  split <;> rfl
+
+theorem svc_modified_symm (a b : Svc V) (ha : a.Wf) (hb : b.Wf) (hk : Svc.KindsAgree a b) :
+    (∀ k f, (k, f) ∈ (rep (svcDiff a b)).modIfs ↔ (k, f) ∈ (rep (svcDiff b a)).modIfs) ∧
+    (rep (svcDiff a b)).modSvcs.map Prod.snd = (rep (svcDiff b a)).modSvcs.map Prod.snd := by
+  simp only [rep_svcDiff]
+  refine ⟨fun k f => mem_level_modified_comm ifaceFlag _ _ ha.1 hb.1 (ifaceFlag_comm_of ha hb hk) k f, ?_⟩
+  unfold selfMod
+  rw [propDiff_comm b.props a.props]
+  split <;> rfl
+
+theorem node_modified_symm (a b : Node V) (ha : a.Wf) (hb : b.Wf) (hk : Node.KindsAgree a b) (x y : Option TDiff)
+    (hx : nodeDiff a b = .ok x) (hy : nodeDiff b a = .ok y) :
+    (∀ k f, (k, f) ∈ (rep x).modComps ↔ (k, f) ∈ (rep y).modComps) ∧
+    (∀ k f, (k, f) ∈ (rep x).modSvcs ↔ (k, f) ∈ (rep y).modSvcs) ∧
+    (rep x).modNodes.map Prod.snd = (rep y).modNodes.map Prod.snd := by
+  have h1 := nodeDiff_ok a b ((nodeDiff_ok_iff a b).1 ⟨x, hx⟩)
+  have h2 := nodeDiff_ok b a ((nodeDiff_ok_iff b a).1 ⟨y, hy⟩)
+  rw [hx] at h1; rw [hy] at h2
+  cases h1; cases h2
+  simp only [rep_nodeDiffP]
+  refine ⟨fun k f => mem_level_modified_comm compFlagP _ _ ha.1 hb.1 ?_ k f,
+    fun k f => mem_level_modified_comm svcPropFlag _ _ ha.2.1 hb.2.1 (fun _ u v _ _ => propDiff_comm u.props v.props) k f, ?_⟩
+  · intro k u v hu hv
+    obtain ⟨hum, rfl⟩ := get?_some_mem hu
+    have hkk := hk u hum v (by simpa [Named.name] using hv)
+    exact compFlagP_comm u v (ha.2.2 u hum) (hb.2.2 v (get?_some_mem hv).1) hkk.1 hkk.2
+  · unfold selfMod
+    rw [propDiff_comm b.props a.props]
+    split <;> rfl
+
+-- non-vacuity: the example node against an edited copy of itself
+example : exNode.Wf ∧ (applyNode exScript exNode).Wf ∧ Node.KindsAgree exNode (applyNode exScript exNode) := by decide
+example : exSvc.Wf ∧ Svc.KindsAgree exSvc { exSvc with ifs := some [{ exIface with subs := none }] } := by decide
+
+/-- a port that is dedicated on the old side only: old→new lists it (SUB_INTERFACES), new→old does not -/
+theorem svc_modified_symm_counterexample :
+    ∃ a b : Svc Nat, a.Wf ∧ b.Wf ∧ ¬ Svc.KindsAgree a b ∧
+      ("p1", ({ sub := true } : Flags)) ∈ (rep (svcDiff a b)).modIfs ∧ (rep (svcDiff b a)).modIfs = [] :=
+  ⟨{ name := "ns", props := {}, ifs := some [exIface] },
+   { name := "ns", props := {}, ifs := some [{ exIface with dedicated := false, subs := none }] }, by decide⟩
+
+/-! ## 7. the two blind spots of `NodeSliver.diff`, and nothing else
+
+Full statement (not true of the code): `nodeDiff a b = .ok none → Node.DeepSame a b`, i.e. a node diff that reports nothing
+means the two nodes agree on everything a sliver comparison can report.  The code compares node-level services by
+`prop_diff` only and descends only below SmartNICs (known findings `C17:NodeSliver.diff:unreported:*`). -/
+
+private def bsSvcA : Svc Nat := { name := "ns1", props := {}, ifs := exSvc.ifs }
+private def bsSvcB : Svc Nat := { name := "ns1", props := {}, ifs := some [exIface] }
+private def bsCompA : Comp Nat := { name := "nic2", props := {}, smart := false, svcs := some [bsSvcA] }
+private def bsCompB : Comp Nat := { name := "nic2", props := {}, smart := false, svcs := some [bsSvcB] }
+
+/-- interfaces changed below a node-level service: `NetworkServiceSliver.diff` on the service reports it, the node diff is None -/
+theorem node_diff_complete_service_subtree_counterexample :
+    ∃ (a b : Node Nat) (u v : Svc Nat), a.Wf ∧ a.svcs = some [u] ∧ b.svcs = some [v] ∧
+      nodeDiff a b = .ok none ∧ (svcDiff u v).isSome = true :=
+  ⟨{ name := "n1", props := {}, comps := none, svcs := some [bsSvcA] },
+   { name := "n1", props := {}, comps := none, svcs := some [bsSvcB] }, bsSvcA, bsSvcB, by decide⟩
+
+/-- an interface changed below a component that is not a SmartNIC -/
+theorem node_diff_complete_non_smartnic_counterexample :
+    ∃ (a b : Node Nat) (x y : Comp Nat) (u v : Svc Nat), a.Wf ∧ a.comps = some [x] ∧ b.comps = some [y] ∧ x.smart = false ∧
+      x.svcs = some [u] ∧ y.svcs = some [v] ∧ nodeDiff a b = .ok none ∧ (svcDiff u v).isSome = true :=
+  ⟨{ name := "n1", props := {}, svcs := none, comps := some [bsCompA] },
+   { name := "n1", props := {}, svcs := none, comps := some [bsCompB] }, bsCompA, bsCompB, bsSvcA, bsSvcB, by decide⟩
+
+/-- exact characterisation: when the node diff reports nothing, the nodes agree on everything reportable except possibly
+(i) below the first service of a common component that is not a SmartNIC, (ii) among the interfaces of a common node-level
+service; and whenever they do agree on everything, the node diff reports nothing -/
+theorem node_diff_complete_partial (a b : Node V) (ha : a.Wf) (hok : PairOk a b) :
+    (Node.DeepSame a b → nodeDiff a b = .ok none) ∧
+    (nodeDiff a b = .ok none →
+      (Node.DeepSame a b ↔
+        (∀ k x y, get? (dictOf a.comps) k = some x → get? (dictOf b.comps) k = some y → x.smart = false →
+          ∀ sx ∈ (dictOf x.svcs).head?, ∀ sy ∈ (dictOf y.svcs).head?, Svc.Same sx sy) ∧
+        (∀ k u v, get? (dictOf a.svcs) k = some u → get? (dictOf b.svcs) k = some v → SameDict Iface.SameIn u.ifs v.ifs))) :=
+  ⟨fun h => (node_diff_none_iff a b ha hok).2 h.same,
+   fun h => node_same_deep_iff a b ((node_diff_none_iff a b ha hok).1 h)⟩
+
+/-! ## 8. corner cases: first sub-interface, renames, `None` against empty, kinds that collide, the hypotheses -/
+
+/-- a dedicated port that had no sub-interfaces (`interface_info` None or empty) and gets its first one is flagged -/
+theorem first_sub_interface_flagged (x y : Iface V) (hx : x.Wf) (hd : x.dedicated = true) (h0 : dictOf x.subs = [])
+    (l : Leaf V) (hl : l ∈ dictOf y.subs) : (ifaceFlag x y).sub = true := by
+  rw [(iface_flag_spec x y hx).2.2.2]
+  refine ⟨hd, fun hs => ?_⟩
+  have := hs.1 l.name
+  rw [h0] at this
+  have h2 : hasKey (dictOf y.subs) l.name = true := hasKey_self hl
+  rw [h2] at this
+  simp [hasKey] at this
+
+example : exIface.Wf ∧ ({ exIface with subs := none } : Iface Nat).Wf ∧ exLeaf ∈ dictOf exIface.subs := by decide
+
+/-- the comparison is by name: an element that reappears under another name is reported removed under the old and added under
+the new name, and under neither as modified (any child dictionary, any flag function) -/
+theorem rename_reported_as_remove_and_add {α : Type} [Named α] (flag : α → α → Flags) (a b : Option (List α))
+    (ha : WfDict (dictOf a)) (k k' : String)
+    (h1 : hasKey (dictOf a) k = true) (h2 : hasKey (dictOf a) k' = false)
+    (h3 : hasKey (dictOf b) k = false) (h4 : hasKey (dictOf b) k' = true) :
+    k ∈ (levelDiff flag a b).removed ∧ k' ∈ (levelDiff flag a b).added ∧
+    ∀ f, (k, f) ∉ (levelDiff flag a b).modified ∧ (k', f) ∉ (levelDiff flag a b).modified :=
+  rename_is_remove_plus_add flag a b ha k k' h1 h2 h3 h4
+
+example : WfDict (dictOf (some [exLeaf])) ∧ hasKey (dictOf (some [exLeaf])) "p1.1" = true ∧
+    hasKey (dictOf (some [exLeaf])) "p1.9" = false ∧ hasKey (dictOf (some [{ exLeaf with name := "p1.9" }])) "p1.1" = false := by decide
+
+/-- a missing `*Info` object and one whose dictionary is empty are indistinguishable, on either side, at every level -/
+theorem none_info_is_empty_info (i j : Iface V) (s t : Svc V) :
+    ifaceDiff { i with subs := none } j = ifaceDiff { i with subs := some [] } j ∧
+    ifaceDiff i { j with subs := none } = ifaceDiff i { j with subs := some [] } ∧
+    svcDiff { s with ifs := none } t = svcDiff { s with ifs := some [] } t ∧
+    svcDiff s { t with ifs := none } = svcDiff s { t with ifs := some [] } := by
+  refine ⟨?_, ?_, ?_, ?_⟩
+  · simp only [ifaceDiff, levelDiff_none_left]
+  · simp only [ifaceDiff, levelDiff_none_right]
+  · simp only [svcDiff, levelDiff_none_left]
+  · simp only [svcDiff, levelDiff_none_right]
+
+/-- every dictionary built from the empty one by `add_*` (`d[name] = x`, also over an existing key) and `remove_*` (`d.pop`)
+has unique keys: the `Wf` hypothesis of the theorems is an invariant of the `*Info` classes -/
+theorem dict_keys_unique_invariant {α : Type} [Named α] (ops : List (DictOp α)) : WfDict (dictRun ops []) :=
+  wf_dictRun ops [] wf_nil
+
+omit [DecidableEq V] in
+/-- two nodes in which every SmartNIC has a network service and that agree on which components are SmartNICs can be compared
+in both directions without raising -/
+theorem pair_ok_of_ok (a b : Node V) (ha' : a.Ok) (hb' : b.Ok)
+    (hk : ∀ x ∈ dictOf a.comps, ∀ y ∈ get? (dictOf b.comps) x.name, x.smart = y.smart) : PairOk a b := by
+  intro x hx y hy hs
+  have hy' : get? (dictOf b.comps) x.name = some y := by simpa using hy
+  exact ⟨ha' x hx hs, hb' y (get?_some_mem hy').1 ((hk x hx y hy) ▸ hs)⟩
+
+example : exNode.Ok ∧ (applyNode exScript exNode).Ok := by decide
+
+/-- a component that is a SmartNIC on the old side and a service-less component of another type under the same name on the new
+side: the comparison raises (known finding `C17:NodeSliver.diff:kind-collision:raises:attribute`) -/
+theorem node_diff_kind_collision_counterexample :
+    ∃ a b : Node Nat, a.Wf ∧ b.Wf ∧ a.Ok ∧ b.Ok ∧ nodeDiff a b = .error "attribute" ∧ (nodeDiff b a).toOption.isSome = true :=
+  ⟨{ name := "n1", props := {}, svcs := none, comps := some [{ name := "nic1", props := {}, smart := true, svcs := some [exSvc] }] },
+   { name := "n1", props := {}, svcs := none, comps := some [{ name := "nic1", props := {}, smart := false, svcs := none }] },
+   by decide⟩
 
 end FimVerif.C17
